@@ -28,6 +28,7 @@ type Solver struct {
 	out     *bufio.Reader
 	Queries int
 	Time    time.Duration
+	GetTime time.Duration
 	LastErr string
 	Log     io.Writer
 }
@@ -39,7 +40,7 @@ func StartSolver(kind string, timeoutMs int) (*Solver, error) {
 	case "z3", "z3-new":
 		cmd = exec.Command(kind, "-in", fmt.Sprintf("-t:%d", timeoutMs))
 	case "cvc5":
-		cmd = exec.Command("cvc5", "--incremental", "--lang=smt2", "--produce-models", fmt.Sprintf("--tlimit-per=%d", timeoutMs))
+		cmd = exec.Command("cvc5", "--incremental", "--lang=smt2", "--produce-models", "--bv-solver=bitblast-internal", fmt.Sprintf("--tlimit-per=%d", timeoutMs))
 	default:
 		return nil, fmt.Errorf("unknown solver %q", kind)
 	}
@@ -164,6 +165,8 @@ func (s *Solver) GetValues(ts []*Term) ([]uint64, error) {
 	if len(ts) == 0 {
 		return nil, nil
 	}
+	tg := time.Now()
+	defer func() { s.GetTime += time.Since(tg) }()
 	var sb strings.Builder
 	sb.WriteString("(get-value (")
 	for i, t := range ts {
